@@ -213,6 +213,9 @@ Theorem c11_source_event_formats :
   src_event_type_fmt = (t_event, [10]) /\ src_event_data_fmt = (t_data, [10]).
 Proof. exact event_formats_tie. Qed.
 
+Theorem c11_translation_complete : (src_problems_event_queue + src_problems_event_fmt = 0)%nat.
+Proof. exact event_translated. Qed.
+
 Print Assumptions c11_block_parses_back.
 Print Assumptions c11_no_injection.
 Print Assumptions c11_stream_parses_back.
@@ -238,3 +241,4 @@ Print Assumptions c11_oracle_sound_modulo_oversize.
 Print Assumptions c11_oversize_event_lost_refuted.
 Print Assumptions c11_source_queue_capacity.
 Print Assumptions c11_source_event_formats.
+Print Assumptions c11_translation_complete.
